@@ -304,6 +304,21 @@ func genConsts() string {
 		}
 		fmt.Fprintf(&b, "/-- `%s` (%s) -/\ndef %s : Nat := %s\n", strings.TrimPrefix(k, "var:"), consts[k].file, leanName(k), v.String())
 	}
+	// name -> value table of the top-level constants (cross-checked against the compiled package)
+	b.WriteString("\n/-- every top-level constant above, by its Go name -/\ndef constTable : List (String × Nat) := [\n")
+	first := true
+	for _, k := range keys {
+		v, ok := eval(k)
+		if !ok || v.Sign() < 0 || consts[k].name == "_" || strings.Contains(k, ".") {
+			continue
+		}
+		if !first {
+			b.WriteString(",\n")
+		}
+		first = false
+		fmt.Fprintf(&b, "  (%q, %s)", strings.TrimPrefix(k, "var:"), leanName(k))
+	}
+	b.WriteString("\n]\n")
 	b.WriteString("\nend Atree.Gen\n")
 	return b.String()
 }
